@@ -45,8 +45,10 @@ MANIFEST = dict(
          "messages are the stub's imitation of xrcmd.c, `command timeout` is dsh.c's own; the teardown is a phase of "
          "the model (rcmd_destroy returns when the scripted command is gone: exited by itself, or killed by the "
          "forwarded SIGTERM unless it ignores it; the slot is released only then); a command that never goes makes "
-         "dsh() wait for ever — theorem immortal_never_returns, finding F07-TEARDOWN-WAIT, replayed on the real "
-         "`pdsh -R exec -u 1`; -k fail-fast is Dsh/TimedK.lean (section K of the theorems, pinned runs through the "
+         "dsh() wait for ever — theorem immortal_never_returns (for Cfg.killAfter = false, the tree as it is), finding "
+         "F07-TEARDOWN-WAIT, replayed on the real `pdsh -R exec -u 1`; the proposed repair (grace wait + SIGKILL before "
+         "rcmd_destroy) is the model switch Cfg.killAfter, probed by behaviour, acceptor runs the variant found "
+         "(kill_after_teardown_does_not_wait); -k fail-fast is Dsh/TimedK.lean (section K of the theorems, pinned runs through the "
          "acceptor); the pdcp worker's connect phase is under the same acceptor; DNS and real signal delivery are "
          "outside the model")
 
@@ -248,14 +250,14 @@ def run(ctx):
         cov["source_worker_tests_command_timeout_itself"] = selfcheck
         stopwdog = T.detect_stopwdog(exe, ctx.scratch)
         cov["source_dsh_stops_watchdog_before_return"] = stopwdog
-        # F07-TEARDOWN-WAIT (a) repaired?  The Timed LTS mirrors the tree as it is (the worker goes straight into
-        # rcmd_destroy); on a tree in which it first waits a grace period and sends SIGKILL, runs in which a target is
-        # given up on are judged by the monitors only (the acceptor knows no such wait)
+        # F07-TEARDOWN-WAIT (a) repaired?  Probed by behaviour; the Timed LTS has the switch `killAfter` (a worker that
+        # gives its target up waits one watchdog period and sends SIGKILL before rcmd_destroy) and the acceptor runs
+        # the variant the tree shows
         ctx.killafter = T.detect_killafter(exe, ctx.scratch)
         cov["source_worker_kills_command_it_gave_up_on"] = ctx.killafter
         ctx.log("constructs of the tree (by behaviour): wait-for-room = %s, worker tests the command timeout itself = %s, "
                 "dsh() stops the watchdog before it returns = %s" % (variant, selfcheck, stopwdog))
-        variant = (variant, selfcheck, stopwdog)
+        variant = (variant, selfcheck, stopwdog, ctx.killafter)
         if ctx.replay:
             rp = json.load(open(ctx.replay))
             case = (rp.get("case") or {}).get("case")
@@ -268,7 +270,7 @@ def run(ctx):
                 for sig, what in (failfast_offenders(res) if case.get("failfast") else T.offenders(res)):
                     ctx.log("replay: %s %s" % (sig, what))
                     ctx.offender(sig, what, T.pack(res))
-                if case.get("yield") == "fan" and res["crash"] is None and not (ctx.killafter and T.gave_up(res)):
+                if case.get("yield") == "fan" and res["crash"] is None:
                     bad = T.accept_all(ctx, [T.project(res, *variant)])[0]
                     if bad:
                         ctx.disagreement("Timed LTS vs dsh.c", "line %d `%s`: %s" % bad, T.pack(res))
@@ -297,7 +299,7 @@ def run(ctx):
                      "constructs of the checked tree, detected by behaviour (wait-for-room, worker tests the command "
                      "timeout itself, dsh() stops the watchdog before returning): %s; the theorems hold for every "
                      "combination; worker waits a grace period and SIGKILLs a command it gave up on (repair of "
-                     "F07-TEARDOWN-WAIT (a); if so, runs with a given-up target are judged by the monitors only): %s"
+                     "F07-TEARDOWN-WAIT (a); if so, the acceptor runs the model variant Cfg.killAfter): %s"
                      % (variant, getattr(ctx, "killafter", None))],
         trusted_base=["Lean 4.33 kernel", "axioms: propext, Classical.choice, Quot.sound at most (audited per theorem)",
                       "hand-written LTS Dsh/Timed.lean + Dsh/TimedK.lean (over Dsh/FanG.lean) tied to dsh.c by trace acceptance",
@@ -370,16 +372,15 @@ def explore(ctx, exe_san, exe, variant, cov, dist):
     def consume(results):
         fan = [r for r in results if r["case"]["yield"] == "fan" and r["crash"] is None and not r["bug"]]
         if getattr(ctx, "killafter", False):
-            skipped = [r for r in fan if T.gave_up(r)]
-            dist["acceptor_skipped_teardown_repaired"] = dist.get("acceptor_skipped_teardown_repaired", 0) + len(skipped)
-            fan = [r for r in fan if not T.gave_up(r)]
+            dist["given_up_runs_through_killAfter_variant"] = dist.get("given_up_runs_through_killAfter_variant", 0) + \
+                sum(1 for r in fan if T.gave_up(r))
         batches = [T.project(r, *variant) for r in fan]
         verdicts = T.accept_all(ctx, batches) if batches else []
         for r, b, bad in zip(fan, batches, verdicts):
             if bad is not None:
                 dist["rejects"] += 1
                 if dist["rejects"] <= 3:
-                    ctx.disagreement("Timed LTS (%s, selfcheck=%s, stopwdog=%s) vs dsh.c" % variant,
+                    ctx.disagreement("Timed LTS (%s, selfcheck=%s, stopwdog=%s, killafter=%s) vs dsh.c" % variant,
                                      "projected trace line %d `%s`: %s" % (bad[0], bad[1], bad[2]), T.pack(r))
             else:
                 dist["accepted"] += 1
@@ -452,8 +453,7 @@ def explore(ctx, exe_san, exe, variant, cov, dist):
     ff = T.run_cases(exe_san, failfast_cases(), ctx.scratch)
     dist["failfast_runs"] = len(ff)
     dist["failfast_exits"] = sum(1 for r in ff if (r["M"] or {}).get("status") == "exit")
-    okff = [r for r in ff if r["crash"] is None and not r["bug"] and
-            not (getattr(ctx, "killafter", False) and T.gave_up(r))]
+    okff = [r for r in ff if r["crash"] is None and not r["bug"]]
     for r, bad in zip(okff, T.accept_all(ctx, [T.project(r, *variant) for r in okff]) if okff else []):
         if bad is not None:
             dist["rejects"] += 1
